@@ -77,7 +77,7 @@ type InvokeWithTakeoutParams struct {
 }
 
 func (*InvokeWithTakeoutParams) CRC() uint32 {
-	return 0xda9b0d0d //nolint:gomnd not magic
+	return 0xaca9fd2e //nolint:gomnd not magic
 }
 
 func (m *Client) InvokeWithTakeout(takeoutID int, query tl.Object) (tl.Object, error) {
